@@ -414,7 +414,16 @@ def r4(ctx):
         for st in stmts:
             if st.get("k") == "let" and (ghid in [h for (_, h) in __import__("sa.hir", fromlist=["pat_binds"]).pat_binds(st["pat"])]):
                 init = st["init"]
-        if init is None or e4.lit_value(init) != "false":
+        any_form = False
+        if init is not None and e4.lit_value(init) != "false":
+            # `let guard = self.layers.iter().any(|l| <true only where a layer's training flag is read as true>)`, never assigned afterwards
+            try:
+                any_form = _guard_is_any_flag(c, fn, ghid)
+            except Exception:  # noqa
+                any_form = False
+        if any_form:
+            pass
+        elif init is None or e4.lit_value(init) != "false":
             faithful, why = False, "guard local is not initialised to false"
         for x in walk(fn["body"]):
             if x.get("k") == "assign" and e4.local_hid(x["l"]) == ghid:
@@ -435,6 +444,42 @@ def r4(ctx):
                     faithful, why = False, "guard local set to true without testing a layer's training flag"
         ctx.check("R09.4", "restore-guard", faithful, "restore-guard-not-faithful", where,
                   "restore guarded by a local that is true only if a flag was true on entry", why)
+
+
+def _guard_is_any_flag(c, fn, ghid):
+    """the guard local is bound once to `<layers>.iter().any(closure)` where the closure yields `true` only on paths that read a `.training` flag as
+    true (or yields the flag itself), and is never assigned again"""
+    from .. import e6
+    lets = [x for x in walk(fn["body"]) if x.get("k") == "let" and x["pat"].get("k") == "bind" and x["pat"].get("hid") == ghid]
+    if len(lets) != 1 or any(x.get("k") in ("assign", "assignop") and e4.local_hid(x["l"]) == ghid for x in walk(fn["body"])):
+        return False
+    E = e6.Exec(c, fn)
+    E.run_fn()
+    init = strip(lets[0]["init"])
+    if init.get("k") != "mcall" or init.get("name") != "any" or len(init.get("args") or []) != 1 or strip(init["args"][0]).get("k") != "closure":
+        return False
+    src = strip(init["recv"])
+    while src is not None and src.get("k") == "mcall" and src.get("name") in ("iter", "iter_mut") and not src["args"]:
+        src = strip(src["recv"])
+    if not (src is not None and src.get("k") == "field" and src.get("f") == "layers"):
+        return False
+    cid = strip(init["args"][0]).get("id")
+    S = E.loop_summaries.get("cl%s" % cid)
+    if S is None:
+        return False
+    for p in S["paths"]:
+        if p.exit is not None:
+            continue
+        v = e6.strip_upd(p.val)
+        if v in (("lit", "false"),):
+            continue
+        flag_read = any(pol and isinstance(t, tuple) and t and t[0] == "field" and t[2] == FLAG for (t, pol) in p.pc)
+        if v == ("lit", "true") and flag_read:
+            continue
+        if isinstance(v, tuple) and v and v[0] == "field" and v[2] == FLAG:
+            continue
+        return False
+    return True
 
 
 def _positive_conjuncts(cnd):
